@@ -53,6 +53,16 @@ class Handler(http.server.BaseHTTPRequestHandler):
             self.send_header(k, v)
         self.send_header("Content-Length", str(len(out)))
         self.end_headers()
+        if plan.get("truncate_after") is not None:
+            # the connection breaks in the middle of the body
+            self.wfile.write(out[:plan["truncate_after"]])
+            self.wfile.flush()
+            self.close_connection = True
+            try:
+                self.connection.shutdown(socket.SHUT_RDWR)
+            except Exception:
+                pass
+            return
         if status not in (204, 304):
             self.wfile.write(out)
 
@@ -440,6 +450,29 @@ def run(ctx):
                 ctx.fail("non-HTTP failure was turned into a TransportError", {"kind": kind}, repr(e), "socket error")
             except Exception:
                 pass
+        # the connection breaks while the body is being read (also of an error reply): the caller is not handed a
+        # cut-off body as if it were the reply
+        for status in (200, 500):
+            for cut in (0, 5, 40):
+                body = b"<r>" + b"x" * 100 + b"</r>"
+                srv.httpd.plan = lambda h, status=status, cut=cut, body=body: {"status": status, "body": body,
+                                                                                "truncate_after": cut}
+                ctx.case(("truncated", status, cut), True)
+                try:
+                    r = t.send(suds.transport.Request(srv.url(), b"<m/>"))
+                    ctx.fail("a reply whose body was cut off by a broken connection was returned as the reply",
+                             {"status": status, "bytes_before_break": cut}, None if r is None else r.message[:60],
+                             "an exception")
+                except suds.transport.TransportError as e:
+                    try:
+                        got = e.fp.read() if e.fp else b""
+                    except Exception:
+                        got = b""          # reading the error body hits the broken connection: still an exception
+                    if status == 200 or got not in (b"", body[:cut]):
+                        ctx.fail("a broken connection was reported as an HTTP error with a made-up body",
+                                 {"status": status, "bytes_before_break": cut}, [e.httpcode, got[:60]], "an exception")
+                except Exception:
+                    pass
         del srv.httpd.seen[:]
         for bad in ["http://127.0.0.1:%d/é" % srv.port, "http://рф/x", b"http://127.0.0.1/\xc3\xa9"]:
             ctx.case(("nonascii", repr(bad)), True)
